@@ -154,7 +154,7 @@ func (fr *Frame) execAppend(c *ssa.CallCommon, resT types.Type, st *State, r str
 				vc.assert(fmt.Sprintf("(forall ((q Int)) (! (=> (and (<= %s q) (< q %s)) (= (select %s q) (select %s (+ %s (- q %s))))) :pattern ((select %s q))))", start, end, row, oldT, t[1], start, row))
 			}
 		}
-		vc.setRow(st, srt, R, row)
+		vc.setRowAlts(st, srt, R, row, []string{s[0], newRef})
 	}
 	return []string{R, O, newLen, C}
 }
